@@ -361,6 +361,80 @@ fn sequences(alpha: &[Step], len: usize) -> impl Iterator<Item = Case> + '_ {
     })
 }
 
+// ------------------------------------------------------------------ a conflict on a removed key
+// A key that was stored by a snapshot and then removed is still known to the node (with its version): a stale versioned
+// write to it conflicts. While the conflict waits the key is what it was before: removed.
+
+#[derive(Clone, Debug, Serialize, Deserialize)]
+pub struct RemovedCase {
+    /// the key reached the disk before it was removed
+    pub snapshot_before_remove: bool,
+    /// the arbiter takes the new value (or answers with a value of its own)
+    pub accept: bool,
+    pub k: usize,
+}
+
+pub fn run_removed(ctx: &Ctx, case: &RemovedCase) -> Outcome {
+    let dir = ctx.fresh_dir();
+    let mut w = new_world(&dir);
+    let key = KEYS[case.k];
+    let mut out = Outcome::ok(case.snapshot_before_remove);
+    out.classes.push("conflict-on-a-removed-key");
+    let mut arb = Session::new();
+    arb.send(&w.node, "use-db d tok");
+    arb.send(&w.node, "arbiter");
+    arb.drain();
+    if case.snapshot_before_remove {
+        w.admin.send(&w.node, "snapshot false");
+        w.node.pump();
+        w.node.snapshot_tick();
+    }
+    w.client.send(&w.node, &format!("remove {}", key));
+    w.node.pump();
+    let list = |w: &mut World| -> String {
+        match w.client.send(&w.node, "keys a").0 {
+            // (without the conflict records, which are keys of their own)
+            Response::Value { value, .. } => value.split(',').filter(|k| !k.is_empty() && !k.starts_with("$conflicts_")).collect::<Vec<_>>().join(","),
+            r => resp_text(&r),
+        }
+    };
+    let listed_before = list(&mut w);
+    let (r, _) = w.client.send(&w.node, &format!("set-safe {} 0 late", key));
+    w.node.pump();
+    let notices: Vec<Notice> = arb.drain().iter().filter_map(|l| parse_notice(l)).collect();
+    if !is_refusal(&r) {
+        // not a conflict on this node (the key was forgotten with the remove): an ordinary write to an absent key
+        drop(w);
+        ctx.drop_dir(&dir);
+        out.nontrivial = false;
+        return out;
+    }
+    let listed_after = list(&mut w);
+    let got = match w.client.send(&w.node, &format!("get {}", key)).0 {
+        Response::Value { value, .. } => value,
+        r => resp_text(&r),
+    };
+    if listed_after != listed_before || got != "<Empty>" {
+        out.fail = Some(("C13|removed-key|refused-conflicting-write-brought-the-key-back".to_string(), format!("{} was removed; `set-safe {} 0 late` was answered {} and is waiting for the arbiter; keys listed {:?} before and {:?} after, get answers {:?}", key, key, resp_text(&r), listed_before, listed_after, got)));
+    } else if let Some(n) = notices.iter().find(|n| n.key == key) {
+        let value = if case.accept { n.new_value.clone() } else { "arbiters-own".to_string() };
+        let (r2, _) = arb.send(&w.node, &format!("resolve {} d {} {} {}", n.opp_id, key, n.version, value));
+        w.node.pump();
+        let now = match w.client.send(&w.node, &format!("get {}", key)).0 {
+            Response::Value { value, .. } => value,
+            r => resp_text(&r),
+        };
+        if is_refusal(&r2) || now != value {
+            out.fail = Some(("C13|removed-key|resolution-not-applied".to_string(), format!("the arbiter answered the conflict on the removed key {} with {:?}: {}; get answers {:?}", key, value, resp_text(&r2), now)));
+        }
+    } else {
+        out.fail = Some(("C13|removed-key|conflict-not-sent-to-the-arbiter".to_string(), format!("the conflicting write to the removed key {} was refused with {} but the registered arbiter received {:?}", key, resp_text(&r), notices.iter().map(|n| n.text.clone()).collect::<Vec<_>>())));
+    }
+    drop(w);
+    ctx.drop_dir(&dir);
+    out
+}
+
 // ------------------------------------------------------------------ conflicts among threads
 // A conflicting write, the registration of a second arbiter, the first arbiter's answer to an older notice and the
 // periodic snapshot step run as tasks of the baton scheduler (yield points before every map / watcher-list lock).
@@ -581,6 +655,17 @@ pub fn run(ctx: &Ctx, rep: &mut Report) {
         enumerate(ctx, rep, &format!("exhaustive-len{}", len), sequences(&alpha, len), |c| run_case(ctx, c));
     }
     if rep.failures.is_empty() {
+        let mut cases = vec![];
+        for snapshot_before_remove in [true, false] {
+            for accept in [true, false] {
+                for k in 0..3 {
+                    cases.push(RemovedCase { snapshot_before_remove, accept, k });
+                }
+            }
+        }
+        enumerate(ctx, rep, "conflict-on-a-removed-key", cases.into_iter(), |c| run_removed(ctx, c));
+    }
+    if rep.failures.is_empty() {
         let n2 = ctx.amount(12_000, 200_000);
         explore(ctx, rep, "conflicts-among-threads", n2, ccase_strategy(), |c| run_conc(ctx, c));
     }
@@ -589,6 +674,9 @@ pub fn run(ctx: &Ctx, rep: &mut Report) {
 
 pub fn replay(ctx: &Ctx, _engine: &str, case: &J) -> Result<Option<(String, String)>, String> {
     crate::interpose::virtual_clock(true);
+    if _engine == "conflict-on-a-removed-key" {
+        return replay_guarded::<RemovedCase>(ctx, case, |c| run_removed(ctx, c));
+    }
     if _engine == "conflicts-among-threads" {
         return replay_guarded::<CCase>(ctx, case, |c| run_conc(ctx, c));
     }
